@@ -14,12 +14,6 @@ PID = 'C19'
 SHORT = 'dispatch'
 
 ENV = '''
-#[derive(Debug, Clone, Copy, PartialEq, Eq, Structural)]
-pub struct StatusCode { pub bits: u32 }
-impl StatusCode {
-    pub const BadSessionIdInvalid: StatusCode = StatusCode { bits: 0x8025_0000 };
-    pub const BadSessionNotActivated: StatusCode = StatusCode { bits: 0x8027_0000 };
-}
 pub struct NodeId { pub x: u64 }
 #[derive(Clone, Copy)]
 pub struct DateTimeUtc { pub ms: i64 }
@@ -178,6 +172,7 @@ def build(manifest):
     a = Asm()
     a.add('use vstd::prelude::*;\n' + macro_def(lb, 'trace_read_lock') + '\n' + macro_def(lb, 'trace_write_lock') + '\nverus! {\nglobal size_of usize == 8;\n', 'prelude', 'env')
     a.add(norm_vis(types), 'types', 'env')
+    a.add(status_code_struct(manifest), 'status codes', 'env')      # every status code of the real file (D14)
     a.add(ENV, 'env', 'env')
     a.add('impl MessageHandler {')
     for n in ['is_session_timed_out', 'is_session_activated', 'validate_activate_service_request', 'validate_service_request']:
